@@ -177,7 +177,14 @@ class AsyncInternalEnforcer(CoreEnforcer):
                 return False
 
             if self.watcher and self.auto_notify_watcher:
-                self.watcher.update()
+                update_for_update_policy = getattr(self.watcher, "update_for_update_policy", None)
+                if callable(update_for_update_policy):
+                    if inspect.iscoroutinefunction(update_for_update_policy):
+                        await update_for_update_policy(old_rule, new_rule)
+                    else:
+                        update_for_update_policy(old_rule, new_rule)
+                else:
+                    self.watcher.update()
 
         return rule_updated
 
@@ -194,7 +201,14 @@ class AsyncInternalEnforcer(CoreEnforcer):
                 return False
 
             if self.watcher and self.auto_notify_watcher:
-                self.watcher.update()
+                update_for_update_policies = getattr(self.watcher, "update_for_update_policies", None)
+                if callable(update_for_update_policies):
+                    if inspect.iscoroutinefunction(update_for_update_policies):
+                        await update_for_update_policies(old_rules, new_rules)
+                    else:
+                        update_for_update_policies(old_rules, new_rules)
+                else:
+                    self.watcher.update()
 
         return rules_updated
 
@@ -309,7 +323,14 @@ class AsyncInternalEnforcer(CoreEnforcer):
                 return False
 
             if self.watcher and self.auto_notify_watcher:
-                self.watcher.update()
+                update_for_remove_filtered_policy = getattr(self.watcher, "update_for_remove_filtered_policy", None)
+                if callable(update_for_remove_filtered_policy):
+                    if inspect.iscoroutinefunction(update_for_remove_filtered_policy):
+                        await update_for_remove_filtered_policy(sec, ptype, field_index, *field_values)
+                    else:
+                        update_for_remove_filtered_policy(sec, ptype, field_index, *field_values)
+                else:
+                    self.watcher.update()
 
         return rule_removed
 
